@@ -1,7 +1,7 @@
 import SignaloModel.Proofs.SgProofs
 import SignaloModel.Proofs.BridgeConv
 import SignaloModel.Proofs.ConvProofs
-import SignaloModel.Proofs.TableChecks
+import SignaloModel.Proofs.SgTableChecks
 /-!
 # C05 — Convolution is an edge-padded FIR; delay shifts by exactly N
 
